@@ -137,6 +137,10 @@ class Parser:
         self.__expected_brackets = []
         RequireCommand.loaded_extensions = []
 
+    def __near(self, text: bytes) -> str:
+        """Return the character found at the lexer's current (byte) position."""
+        return text[self.lexer.pos : self.lexer.pos + 4].decode("utf-8", "replace")[:1]
+
     def __set_expected(self, *args, **kwargs):
         """Set the next expected token.
 
@@ -467,7 +471,7 @@ class Parser:
                             msg = "{} found while {} expected near '{}'".format(
                                 ttype,
                                 "|".join(self.__expected),
-                                text.decode()[self.lexer.pos],
+                                self.__near(text),
                             )
                         else:
                             msg = "%s found while %s expected at end of file" % (
@@ -479,8 +483,8 @@ class Parser:
 
                 if not self.__command(ttype, tvalue):
                     msg = "unexpected token '%s' found near '%s'" % (
-                        tvalue.decode(),
-                        text.decode()[self.lexer.pos],
+                        tvalue.decode("utf-8", "replace"),
+                        self.__near(text),
                     )
                     raise ParseError(msg)
             if self.__expected_brackets:
@@ -491,7 +495,7 @@ class Parser:
                     % "|".join(self.__expected)
                 )
 
-        except (ParseError, CommandError) as e:
+        except (ParseError, CommandError, UnicodeDecodeError) as e:
             self.error_pos = (
                 self.lexer.curlineno(),
                 self.lexer.curcolno(),
